@@ -223,6 +223,15 @@ fn c14_eval(c: &C14Case, r: &mut Report) {
                 if let Some((k, v)) = present_custom {
                     expected.push(Claim::Custom(k.clone(), v.clone()));
                 }
+                // ... accepting validators for claims the token DOES carry as well, through both registration routes (a validator
+                // that is handed the value must not consume or alter it); the key of the expectation is left alone
+                let exp_key = expected.first().map(|e| e.key().to_string());
+                for (i, (k, _)) in want.iter().filter(|(k, _)| !RESERVED.contains(&k.as_str()) && !k.is_empty() && Some(k.as_str()) != exp_key.as_deref()).take(3).enumerate() {
+                    validators.push(VSpec { claim: Claim::Custom(k.clone(), json!("dummy")), behave: VBehave::Accept, reg: if i % 2 == 0 { VReg::ExtendOnly } else { VReg::ValidateClaim }, second: false, odd: 0 });
+                }
+                if let Some(Value::String(_)) = want.get("sub") {
+                    validators.push(VSpec { claim: Claim::Sub("dummy".into()), behave: VBehave::Accept, reg: if r.evaluations % 8 == 0 { VReg::ExtendOnly } else { VReg::ValidateClaim }, second: false, odd: 0 });
+                }
                 let cfgs = [
                     ("generic parser with accepting validators (incl. for absent claims) and a matching expectation", false, ParserCfg { validators: validators.clone(), expected: expected.clone(), ..Default::default() }),
                     ("PasetoParser::new() with accepting validators (incl. for absent claims)", true, ParserCfg { validators: validators.iter().cloned().map(|mut v| { v.reg = VReg::ValidateClaim; v }).collect(), ..Default::default() }),
@@ -492,7 +501,7 @@ pub fn replay_c14(case: &Value) -> Report {
     r
 }
 
-pub const RULE_C14: &str = "seeded random histories of 0..12 (every 16th: 0..60) set_claim/remove_claim/extend_claims operations on GenericBuilder (20000 on v4.local, 250-1500 on each other protocol; thorough 2e6 / 1e4-1.5e5) plus a fixed corner catalogue: keys = non-empty Unicode (escapes, NUL, non-BMP, 200-byte keys, near-reserved names, keys equal to a member name inside their own value, 255/256/257/1000 (thorough 70000) claims on one builder, and ~45 pairs of different keys that collide under FNV-1/1a, the 31-multiplier hash, djb2, CRC-32, byte sums, truncation to 8..256 bytes or to u8/u16 characters, NFC/NFD, embedded NUL); values = JSON trees of depth <= 5 (i64/u64 extremes, exact short decimals, empty containers, null), native Rust values through Serialize (structs, tuples, Option, Vec, BTreeMap, enums, char, bytes) and registered claims through their typed constructors; the token is parsed back with a validator-free GenericParser and the whole object compared (serde_json equality) with a model map (last write wins, remove deletes) built by the harness. Plus multi-build histories (1500 on v4.local, 30-150 elsewhere; thorough 4e4): ONE GenericBuilder is driven through 3-17 set/remove/footer/assertion/build steps and EVERY token it emits must equal the model at that point. distinct_nontrivial = distinct (protocol, #ops, #sets, #members, value-shape signature) that built, parsed and compared equal; every fourth token is also parsed through parsers carrying accepting validators (also for absent claims), a matching expectation, and PasetoParser::default(): a successful parse must return exactly the claims set";
+pub const RULE_C14: &str = "seeded random histories of 0..12 (every 16th: 0..60) set_claim/remove_claim/extend_claims operations on GenericBuilder (20000 on v4.local, 250-1500 on each other protocol; thorough 2e6 / 1e4-1.5e5) plus a fixed corner catalogue: keys = non-empty Unicode (escapes, NUL, non-BMP, 200-byte keys, near-reserved names, keys equal to a member name inside their own value, 255/256/257/1000 (thorough 70000) claims on one builder, and ~45 pairs of different keys that collide under FNV-1/1a, the 31-multiplier hash, djb2, CRC-32, byte sums, truncation to 8..256 bytes or to u8/u16 characters, NFC/NFD, embedded NUL); values = JSON trees of depth <= 5 (i64/u64 extremes, exact short decimals, empty containers, null), native Rust values through Serialize (structs, tuples, Option, Vec, BTreeMap, enums, char, bytes) and registered claims through their typed constructors; the token is parsed back with a validator-free GenericParser and the whole object compared (serde_json equality) with a model map (last write wins, remove deletes) built by the harness. Plus multi-build histories (1500 on v4.local, 30-150 elsewhere; thorough 4e4): ONE GenericBuilder is driven through 3-17 set/remove/footer/assertion/build steps and EVERY token it emits must equal the model at that point. distinct_nontrivial = distinct (protocol, #ops, #sets, #members, value-shape signature) that built, parsed and compared equal; every fourth token is also parsed through parsers carrying accepting validators (for absent claims and for claims the token carries, registered one at a time and in bulk), a matching expectation, and PasetoParser::default(): a successful parse must return exactly the claims set";
 
 // ==========================================================================================
 // C15
